@@ -47,3 +47,12 @@ fn c36_comment_write_expanded_single_line() {
     let out = written(" plain ", Style::Expanded, 0);
     assert!(out == b"/* plain */\n", "expanded: /* plain */ and a newline");
 }
+/// C36: a loud comment whose text merely CONTAINS a `#` (here after a
+/// space) is an ordinary loud comment and is emitted in expanded style.
+#[kani::proof]
+#[kani::stub(crate::output::format::long_indent, crate::output::format::kani_verif::long_indent_by_contract)]
+#[kani::unwind(14)]
+fn c36_comment_write_expanded_hash_not_first() {
+    let out = written(" # x ", Style::Expanded, 0);
+    assert!(out == b"/* # x */\n", "expanded: /* # x */ and a newline");
+}
